@@ -241,13 +241,13 @@ Cfg make_cfg(Rng& rng, bool vegas)
 void run_case(Rng& rng, std::uint64_t idx)
 {
     bool vegas = idx % 2 == 0;
-    int mode = (idx / 2) % 3;     // 0 serial, 1 resumed through text, 2 shim MPI
+    int mode = (idx / 2) % 4;     // 0 serial, 1 resumed through text, 2 shim MPI, 3 shim MPI continued from a checkpoint that already holds results
     Cfg c = make_cfg(rng, vegas);
     std::size_t n = rng.range(2, ctx().thorough ? 8 : 5);
     std::vector<std::size_t> calls;
     for (std::size_t i = 0; i < n; ++i) calls.push_back(rng.range(50, 500));
     E gen((unsigned)rng.next());
-    static char const* modes[] = {"serial", "resumed", "mpi"};
+    static char const* modes[] = {"serial", "resumed", "mpi", "mpi-resumed"};
     J info;
     info.s("T", tname<T>::get()).s("integrator", vegas ? "vegas" : "multi_channel").uv("calls", calls).u("dims", c.dims).u("bins", c.bins).u("channels", c.channels)
         .f("alpha", c.alpha).f("beta", c.beta).f("min_weight", c.minw).b("user_state", c.user_state).fv("user_weights", c.weights);
@@ -290,6 +290,50 @@ void run_case(Rng& rng, std::uint64_t idx)
                 judge_mc(c, r, rl2, a.generator(), cut, "resumed", J(info).u("cut", cut));
             }
         }
+    }
+    else if (mode == 3)
+    {
+        // first segment on the shim, checkpoint through text, second segment on the shim again
+        int P = (int)std::vector<int>{1, 2, 3}[rng.below(3)];
+        std::size_t cut = rng.range(1, n - 1);
+        std::vector<std::size_t> c1(calls.begin(), calls.begin() + cut), c2(calls.begin() + cut, calls.end());
+        std::vector<RankLog> rl1(P), rl2(P);
+        std::vector<std::string> t1(P), t2(P);
+        vchk_t v1 = vegas_initial(c, gen), v2 = v1;
+        mchk_t m1 = mc_initial(c, gen), m2 = m1;
+        for (int phase = 0; phase < 2; ++phase)
+        {
+            VfWorld world;
+            std::vector<RankLog>& rl = phase ? rl2 : rl1;
+            std::vector<std::string>& tx = phase ? t2 : t1;
+            std::string from = phase ? t1[0] : "";
+            vf_mpi_run(world, P, rng.next(), [&](int rank, MPI_Comm comm) {
+                RecIntegrand<T> f = make_f(c, &rl[rank].log);
+                if (vegas)
+                {
+                    vchk_t start = vegas_initial(c, gen);
+                    if (phase) { std::istringstream in(from); start = vchk_t(in); }
+                    MarkCb<vchk_t> cb = {&rl[rank]};
+                    vchk_t r = hep::mpi_vegas(comm, hep::make_integrand<T>(f, c.dims), phase ? c2 : c1, start, cb);
+                    tx[rank] = text_of_chk(r);
+                    if (rank == 0) { if (phase) v2 = r; else v1 = r; }
+                }
+                else
+                {
+                    mchk_t start = mc_initial(c, gen);
+                    if (phase) { std::istringstream in(from); start = mchk_t(in); }
+                    MarkCb<mchk_t> cb = {&rl[rank]};
+                    mchk_t r = hep::mpi_multi_channel(comm, hep::make_multi_channel_integrand<T>(f, c.dims, c.map, c.dims, c.channels), phase ? c2 : c1, start, cb);
+                    tx[rank] = text_of_chk(r);
+                    if (rank == 0) { if (phase) m2 = r; else m1 = r; }
+                }
+            });
+            J inf = J(info).u("world", P).u("cut", cut).i("phase", phase);
+            if (world.aborted) { viol("mpi:collective-mismatch-or-hang", J(inf).s("reason", world.abort_reason)); return; }
+            for (int r = 1; r < P; ++r) if (tx[r] != tx[0]) { viol("mpi:ranks-return-different-checkpoints", J(inf).u("rank", r)); return; }
+        }
+        J inf = J(info).u("world", P).u("cut", cut);
+        if (vegas) judge_vegas(c, v2, rl2, v1.generator(), cut, "mpi-resumed", inf); else judge_mc(c, m2, rl2, m1.generator(), cut, "mpi-resumed", inf);
     }
     else
     {
